@@ -132,6 +132,15 @@ func BuildMethodCall(codeFunc *CodeFunction, item ast.Stmt, fields []CodeField, 
 		vars := BuildLocalVars(it, codeFunc, imports)
 		localVars = vars
 	case *ast.IfStmt:
+		// the statements of the branches are statements of the function
+		localVars, _ = BuildMethodCall(codeFunc, it.Body, fields, localVars, imports, packageName)
+		if it.Else != nil {
+			localVars, _ = BuildMethodCall(codeFunc, it.Else, fields, localVars, imports, packageName)
+		}
+	case *ast.BlockStmt:
+		for _, stmt := range it.List {
+			localVars, _ = BuildMethodCall(codeFunc, stmt, fields, localVars, imports, packageName)
+		}
 	case *ast.ReturnStmt:
 		for _, resultExpr := range it.Results {
 			typ, caller, callee := BuildExpr(resultExpr)
